@@ -702,8 +702,12 @@ func (f *frame) abstractCall(callee *ssa.Function, cc *ssa.CallCommon, pc *Term,
 		c.havocAll(st)
 	}
 	kept := f.preservedHeaps(callee)
+	keepGhosts := f.asyncBoundary(callee)
 	for _, h := range ms.list() {
 		if kept[h] {
+			continue
+		}
+		if strings.HasPrefix(h, "ghost$") && keepGhosts[h[6:]] {
 			continue
 		}
 		c.havocHeap(st, h)
